@@ -11,6 +11,7 @@ import (
 	"go/ast"
 	"go/importer"
 	"go/parser"
+	"go/printer"
 	"go/token"
 	"go/types"
 	"os"
@@ -167,7 +168,7 @@ func main() {
 	for _, name := range files {
 		astFiles = append(astFiles, pkg.Files[name])
 	}
-	info := &types.Info{Uses: map[*ast.Ident]types.Object{}, Defs: map[*ast.Ident]types.Object{}, Selections: map[*ast.SelectorExpr]*types.Selection{}}
+	info := &types.Info{Uses: map[*ast.Ident]types.Object{}, Defs: map[*ast.Ident]types.Object{}, Selections: map[*ast.SelectorExpr]*types.Selection{}, Types: map[ast.Expr]types.TypeAndValue{}}
 	conf := types.Config{Importer: importer.ForCompiler(fset, "source", nil), Error: func(error) {}}
 	tpkg, _ := conf.Check("github.com/clbanning/mxj/v2", fset, astFiles, info)
 	if tpkg == nil {
@@ -250,6 +251,150 @@ func main() {
 			f.Calls[fn] = keysOf(c)
 		}
 	}
+
+	// ---- potentially panicking sites (index / slice expressions on slices and strings,
+	// single-value type assertions, explicit pointer dereferences) after discarding the
+	// syntactically guarded ones
+	type site struct{ fn, kind, expr string }
+	var sites []site
+	exprText := func(e ast.Expr) string {
+		var b strings.Builder
+		printer.Fprint(&b, fset, e)
+		return strings.Join(strings.Fields(b.String()), " ")
+	}
+	for _, af := range astFiles {
+		for _, d := range af.Decls {
+			fd, ok := d.(*ast.FuncDecl)
+			if !ok || fd.Body == nil {
+				continue
+			}
+			fobj, _ := info.Defs[fd.Name].(*types.Func)
+			if fobj == nil {
+				continue
+			}
+			fn := funcName(fobj)
+			var stack []ast.Node
+			ast.Inspect(fd.Body, func(n ast.Node) bool {
+				if n == nil {
+					stack = stack[:len(stack)-1]
+					return true
+				}
+				stack = append(stack, n)
+				switch x := n.(type) {
+				case *ast.TypeAssertExpr:
+					if x.Type == nil {
+						return true // the guard of a type switch
+					}
+					// comma-ok form?
+					if len(stack) >= 2 {
+						switch p := stack[len(stack)-2].(type) {
+						case *ast.AssignStmt:
+							if len(p.Lhs) == 2 && len(p.Rhs) == 1 && p.Rhs[0] == ast.Expr(x) {
+								return true
+							}
+						case *ast.ValueSpec:
+							if len(p.Names) == 2 && len(p.Values) == 1 {
+								return true
+							}
+						}
+					}
+					// inside `case T:` of a type switch on the same operand
+					subj, typ := exprText(x.X), exprText(x.Type)
+					guarded := false
+					for i := len(stack) - 1; i >= 0 && !guarded; i-- {
+						cc, ok := stack[i].(*ast.CaseClause)
+						if !ok || i == 0 {
+							continue
+						}
+						// find the enclosing type switch
+						for j := i - 1; j >= 0; j-- {
+							ts, ok := stack[j].(*ast.TypeSwitchStmt)
+							if !ok {
+								continue
+							}
+							var ta *ast.TypeAssertExpr
+							switch a := ts.Assign.(type) {
+							case *ast.ExprStmt:
+								ta, _ = a.X.(*ast.TypeAssertExpr)
+							case *ast.AssignStmt:
+								if len(a.Rhs) == 1 {
+									ta, _ = a.Rhs[0].(*ast.TypeAssertExpr)
+								}
+							}
+							if ta != nil && exprText(ta.X) == subj && len(cc.List) == 1 && exprText(cc.List[0]) == typ {
+								guarded = true
+							}
+							break
+						}
+					}
+					if !guarded {
+						sites = append(sites, site{fn, "assert", subj + ".(" + typ + ")"})
+					}
+				case *ast.IndexExpr:
+					tv, ok := info.Types[x.X]
+					if !ok {
+						return true
+					}
+					switch u := tv.Type.Underlying().(type) {
+					case *types.Map:
+						return true
+					case *types.Array:
+						if c, ok := info.Types[x.Index]; ok && c.Value != nil {
+							_ = u
+							return true // constant index into a fixed-size array is checked by the compiler
+						}
+					}
+					// under `for i := range x` / `for i ... i < len(x)` with the same x and i
+					xs, is := exprText(x.X), exprText(x.Index)
+					guarded := false
+					for i := len(stack) - 1; i >= 0; i-- {
+						switch l := stack[i].(type) {
+						case *ast.RangeStmt:
+							if l.Key != nil && exprText(l.Key) == is && exprText(l.X) == xs {
+								guarded = true
+							}
+						case *ast.ForStmt:
+							if be, ok := l.Cond.(*ast.BinaryExpr); ok && be.Op == token.LSS && exprText(be.X) == is && exprText(be.Y) == "len("+xs+")" {
+								guarded = true
+							}
+						}
+					}
+					// strings.Split(...)[0]
+					if ce, ok := x.X.(*ast.CallExpr); ok && exprText(ce.Fun) == "strings.Split" && is == "0" {
+						guarded = true
+					}
+					if !guarded {
+						sites = append(sites, site{fn, "index", xs + "[" + is + "]"})
+					}
+				case *ast.SliceExpr:
+					sites = append(sites, site{fn, "slice", exprText(x)})
+				case *ast.StarExpr:
+					if _, isType := info.Types[x]; isType && info.Types[x].IsType() {
+						return true
+					}
+					sites = append(sites, site{fn, "deref", exprText(x)})
+				}
+				return true
+			})
+		}
+	}
+	sort.Slice(sites, func(i, j int) bool {
+		if sites[i].fn != sites[j].fn {
+			return sites[i].fn < sites[j].fn
+		}
+		if sites[i].kind != sites[j].kind {
+			return sites[i].kind < sites[j].kind
+		}
+		return sites[i].expr < sites[j].expr
+	})
+	// distinct (function, kind, expression) triples
+	var uniq []site
+	for i, st := range sites {
+		if i == 0 || st != sites[i-1] {
+			uniq = append(uniq, st)
+		}
+	}
+	sites = uniq
 
 	if *jout != "" {
 		b, _ := json.MarshalIndent(f, "", " ")
@@ -363,6 +508,15 @@ func main() {
 		sb.WriteString(fmt.Sprintf("def %s : List String := [%s]\n", name, quoteJoin(present)))
 		sb.WriteString(fmt.Sprintf("/-- certificate: the extractor's transitive closure of `%s` under the callee relation -/\ndef %sClosure : List String := [%s]\n\n", name, name, quoteJoin(closure(present))))
 	}
+	sb.WriteString("/-- potentially panicking sites left after the syntactic guards: (function, kind, expression) -/\ndef panicSites : List (String × String × String) := [\n")
+	for i, st := range sites {
+		sep := ","
+		if i == len(sites)-1 {
+			sep = ""
+		}
+		sb.WriteString(fmt.Sprintf("  (%q, %q, %q)%s\n", st.fn, st.kind, st.expr, sep))
+	}
+	sb.WriteString("]\n\n")
 	sb.WriteString("end Mxj.Generated\n")
 	if *out != "" {
 		os.MkdirAll(filepath.Dir(*out), 0o755)
